@@ -1379,6 +1379,11 @@ XPathProcessorImpl::UnionExpr()
             }
 
             nextToken();
+
+            if (m_token.empty() == true)
+            {
+                error(XalanMessages::ExpectedToken);
+            }
         }
         else
         {
